@@ -395,7 +395,7 @@ PROPS = {
         "level_note": "Trusted: Lean kernel, the extractor (its read-only allowlist of callee names is the modelled part: a callee named there "
                       "is assumed not to change the repository), harness. The correspondence run checks that assumption from outside: refs, "
                       "object count, cache content before/after every refused request. gqlgen's dispatch is exercised, not modelled.",
-        "required_theorems": ["gate_general", "no_user_no_change", "no_user_refused", "with_user", "gen_gated", "gen_schema_covered", "gen_authored", "recorded_general", "gen_recorded"],
+        "required_theorems": ["gate_general", "no_user_no_change", "no_user_refused", "with_user", "gen_gated", "gen_schema_covered", "gen_authored", "recorded_general", "gen_recorded", "gen_gate_stateless"],
         "slices": ["C17"],
         "rule": "in-process graphql.NewHandler and NewGitUploadFileHandler over a go-git repository with a user identity and bugs; every "
                 "mutation field found by introspection x {no user, user} x {valid, invalid arguments}; refs, object files and cache "
